@@ -3,7 +3,7 @@
 import json, os, sys, glob
 HERE = os.path.dirname(os.path.abspath(__file__)); V = os.path.dirname(HERE)
 sys.path.insert(0, HERE)
-from manifest_data import CHECKS, NOT_APPLICABLE, NOTES, SOURCE_COMMITS
+from manifest_data import CHECKS, NOT_APPLICABLE, NOTES, SOURCE_COMMITS, PLANNED
 checks = []
 for pid, c in sorted(CHECKS.items()):
     if not glob.glob(os.path.join(V, 'contracts', pid, '*.spec')):
@@ -24,6 +24,9 @@ na = [{'property_id': k, 'reason': v} for k, v in sorted(NOT_APPLICABLE.items())
 for pid, c in sorted(CHECKS.items()):
     if pid not in claimed:
         na.append({'property_id': pid, 'reason': 'planned slice not built yet: ' + c['text'][:120]})
+for pid, txt in sorted(PLANNED.items()):
+    if pid not in claimed and pid not in CHECKS:
+        na.append({'property_id': pid, 'reason': 'planned slice not built (yet): ' + txt})
 m = {
     'version': 1,
     'setup_cmd': 'python3 xc/setup_check.py',
